@@ -91,7 +91,7 @@ LINE_SITES = [
     ("nonascii", _sp("\u00e9"), "\u00e9"),
     ("nonascii", "/opt/gen/caf\u00e9/\u4e2d\u6587.go", ""),
     ("npbmp", _sp("\u200b"), "\u200b"),
-    ("npbmp", _sp("\u0085"), "\u0085"),
+    ("C1", _sp("\u0085"), "\u0085"),                                 # a C1 control (NEL) in UTF-8
     ("lsep", _sp("\u2028"), "\u2028"),
     ("astral", _sp("\U0001f600"), "\U0001f600"),
     ("astralnp", _sp("\U000e0001"), "\U000e0001"),
@@ -194,17 +194,20 @@ def gen_line_sites(path=None):
 def model_check(ctx, fmt):
     quick = ctx.quick()
     files = {}
-    vocab_expr = ('[classes |-> Classes, kinds |-> Kinds, textkinds |-> TextKinds, control |-> Control, '
-                  'layout |-> LayoutClasses, '
-                  'must |-> [json |-> Classes \\ JsonRawOK, logfmt |-> Classes \\ GoRawOK, color |-> Control], '
+    vocab_expr = ('[classes |-> Classes, kinds |-> Kinds, textkinds |-> TextKinds, control |-> ColorUnsafe, '
+                  'layout |-> LayoutClasses, forms |-> Forms, envs |-> Envs, '
+                  'must |-> [json |-> Classes \\ JsonRawOK, logfmt |-> Classes \\ GoRawOK, color |-> ColorUnsafe], '
                   'mechjsonbad |-> MechJsonBad, reserved |-> ReservedIds, fgonlybad |-> FgOnlyCloseBad, '
-                  'siteclasses |-> SiteClasses, symbolcopybad |-> SymbolCopyBad]')
+                  'siteclasses |-> SiteClasses, symbolcopybad |-> SymbolCopyBad, barelistbad |-> BareListBad, '
+                  'halfswitchbad |-> HalfSwitchBad, topexcluded |-> [json |-> TopExcluded("json"), '
+                  'logfmt |-> TopExcluded("logfmt"), color |-> TopExcluded("color")]]')
     mc = ("---- MODULE MC_Enc ----\nEXTENDS Encoder, Json\n"
           "c_KeyIds == {0, 1, 2, 3}\nc_KeyIds2 == {1, 2}\nc_KeyIdsR == {1, 99}\nc_KeyIdsR2 == {-1, 1, 98, 99}\n"
           'Export == PrintT("@@tree " \\o ToJson(flat))\n'
           'ASSUME PrintT("@@vocab " \\o ToJson(%s))\n====\n' % vocab_expr)
-    invs = ("Legal RoundTrip OneLine NoForgery NoRawControl CallerRoundTrip MergeSorted MergeLastWins MergeIdempotent "
-            "MembersCount PairsAscending PairsComplete KeyNamesDoNotMatter ColourOK Export")
+    invs = ("Legal RoundTrip OneLine NoForgery NoRawControl CallerRoundTrip StrListsAreOneToken PlainIsClean MergeSorted "
+            "MergeLastWins MergeIdempotent MembersCount PairsAscending PairsComplete KeyNamesDoNotMatter FormDoesNotMatter "
+            "ColourOK Export")
     cfg = ("CONSTANTS\n  KeyIds <- c_KeyIds\n  MaxNodes = %d\n  MaxDepth = %d\nINIT Init\nNEXT Next\n"
            "CHECK_DEADLOCK FALSE\nINVARIANTS %s\n" % (3 if quick else 4, 2 if quick else 3, invs))
     files["MC_Enc.tla"] = mc
@@ -239,8 +242,9 @@ def model_check(ctx, fmt):
     # vacuity: the invariants must be able to fail
     wcfg = ("CONSTANTS\n  KeyIds <- c_KeyIds\n  MaxNodes = 1\n  MaxDepth = 0\nINIT Init\nNEXT Next\n"
             "CHECK_DEADLOCK FALSE\nINVARIANTS %s\n")
-    for inv in (["MechIsJson", "SymbolCopyIsLegal"] if fmt == "json" else ["CRIsClean", "FgOnlyCloseIsClean"] if fmt == "color"
-                else ["MechIsJson", "SymbolCopyIsLegal"]):
+    for inv in (["MechIsJson", "SymbolCopyIsLegal"] if fmt == "json" else
+                ["CRIsClean", "FgOnlyCloseIsClean", "HalfSwitchIsClean"] if fmt == "color"
+                else ["MechIsJson", "SymbolCopyIsLegal", "BareListIsOneToken"]):
         w = ctx.tlc("MC_Enc", "W.cfg", files={"MC_Enc.tla": mc, "W.cfg": wcfg % inv}, name="enc-witness-" + inv,
                     allow_fail=True, workers=1, timeout=300)
         if inv not in w.invariant_violated and ("invariant of %s is equal to FALSE" % inv) not in w.out:
@@ -258,6 +262,14 @@ def model_check(ctx, fmt):
     ctx.extra["model_predicted_fg_only_close_leaks"] = sorted([list(x[0]), x[1]] for x in vocab["fgonlybad"])
     if fmt == "color" and not any(x[1] >= 3 for x in vocab["fgonlybad"]):
         raise Undecided("witness FgOnlyCloseBad is empty for >= 3 lines")
+    # a string slice written "[" quoted elements "]" as a BARE logfmt value: the classes whose character cuts the token
+    ctx.extra["model_predicted_bare_list_cuts"] = sorted(vocab["barelistbad"])
+    if fmt == "logfmt" and "space" not in vocab["barelistbad"]:
+        raise Undecided("witness BareListBad does not contain the blank")
+    # the no-colour process switch honoured by halves: where colour stays on, according to the model
+    ctx.extra["model_predicted_half_switch_leaks"] = sorted([list(x[0]), x[1]] for x in vocab["halfswitchbad"])
+    if fmt == "color" and not any(x[1] >= 2 for x in vocab["halfswitchbad"]):
+        raise Undecided("witness HalfSwitchBad is empty for >= 2 lines")
     return vocab, trees
 
 
@@ -289,10 +301,13 @@ class Gen:
         self.rng = random.Random(seed)
 
     def add(self, tag, msg=None, attrs=None, name=None, caller=False, sev=4, width=3, minw=36, probe=None, salt=0, lc=None,
-            cfile="plain", site=0):
-        if sev == 8 and all(c in ("space", "LF", "CR", "TAB") for c in (msg or [])) and msg is not None:
-            sev = 4           # severity Always with a blank message is C02's special case, not a record
-        c = dict(id=len(self.cases), fmt=self.fmt, testing=False,
+            cfile="plain", site=0, form="thru", env="default"):
+        # (severity Always with a blank message: C02's blank line when it is a logging CALL - the specification's
+        # BlankPrint, skipped by InDomain; a record like any other when it is handed over through WriteThru)
+        if form != "thru":
+            site = 0          # a logging call is issued from the worker's own call site
+            cfile = "plain"
+        c = dict(id=len(self.cases), fmt=self.fmt, testing=False, form=form, env=env,
                  name=dict(has=name is not None, cls=list(name or [])), sev=sev, caller=caller, cfile=cfile, site=site,
                  width=width, minw=minw, msg=list(msg if msg is not None else ["plain"]), attrs=attrs or [], salt=salt,
                  lc=dict(set=True, fg=lc[0], bg=lc[1]) if lc else dict(NO_LC))
@@ -322,11 +337,11 @@ def posgroup(fmt, pos):
         return "caller"
     if pos == "msg":
         return "msg" if fmt == "color" else "text"
-    if pos in ("string", "error", "stringer", "strs"):
+    if pos in ("string", "error", "stringer"):
         return "text"
     if pos == "fallback":
         return "fallback" if fmt == "color" else "text"
-    return pos            # bytes, textm
+    return pos            # strs (a slice of strings has a list syntax of its own), bytes, textm
 
 
 def classes_at(fmt, pos, vocab):
@@ -470,15 +485,20 @@ def gen_reserved(g, vocab, rtrees, quick):
     kinds = sorted(k for k in vocab["kinds"] if k != "textm" or fmt == "color")
     for name, rid in sorted(RESERVED.items()):
         for kind in kinds:
-            for depth in ((0, 1, 2, 3) if fmt == "color" else (1, 2, 3)):
+            # top level: colored (no exclusion) and every name the quantifier of the property does not exclude
+            # (JSON: `logger` is none of the four reserved field names - on a named and on an unnamed logger)
+            top_ok = rid not in vocab["topexcluded"][fmt]
+            for depth in ((0, 1, 2, 3) if top_ok else (1, 2, 3)):
                 nsalt = 3 if kind in ("time", "times") else 1 if quick else 2
                 for s in range(nsalt):
-                    x = node(rid, kind, 1, sub=[node(2, "int", 2), node(rid, "string", 3)] if kind == "group" else None)
-                    members = [node(1, "int", 4), x, node(50, "string", 5)]
-                    c = g.add(dict(t="reskey", where="member-key" if depth else "top-key", name=name, kind=kind, depth=depth),
-                              attrs=wrap_groups(members, depth), salt=s, caller=(depth + s) % 2 == 1,
-                              msg=["plain", "LF", "plain"] if s == 1 else ["plain"])
-                    c["byvar"] = kind in ("time", "times")
+                    for nm in ((["plain"], None) if depth == 0 and fmt != "color" else (None,)):
+                        x = node(rid, kind, 1, sub=[node(2, "int", 2), node(rid, "string", 3)] if kind == "group" else None)
+                        members = [node(1, "int", 4), x, node(50, "string", 5)]
+                        c = g.add(dict(t="reskey", where="member-key" if depth else "top-key", name=name, kind=kind, depth=depth,
+                                       named=nm is not None),
+                                  attrs=wrap_groups(members, depth), salt=s, caller=(depth + s) % 2 == 1, name=nm,
+                                  msg=["plain", "LF", "plain"] if s == 1 else ["plain"])
+                        c["byvar"] = kind in ("time", "times")
     # JSON only (the empty key is no legal logfmt key): the reserved names as keys of members of a group whose OWN
     # key is the empty key - at top level and inside another group.  The key path written so far is empty there,
     # exactly as at record level.
@@ -505,6 +525,79 @@ def gen_reserved(g, vocab, rtrees, quick):
                         n["kind"] = leaf
             retype(attrs)
             g.add(dict(t="rtree", leaf=leaf), attrs=attrs, caller=i % 2 == 0, name=["plain"] if i % 3 == 0 else None, salt=i % 3)
+
+
+BLANKS = [("empty", []), ("blank", ["space", "space"]), ("tab-lf", ["TAB", "LF"]), ("lf", ["LF"]), ("cr-lf-space", ["CR", "LF", "space"])]
+BLANK_ATTRS = [
+    ("none", lambda: []), ("int", lambda: [node(1, "int", 1)]),
+    ("string+group", lambda: [node(1, "string", 1), node(2, "group", 2, sub=[node(3, "int", 3)])]),
+]
+
+
+def gen_forms(g, vocab, trees, quick):
+    """How a record reaches the library, as a dimension of the cell space (record field `form`): handed over through
+    Entry.WriteThru (every other generator), or a logging CALL whose arguments are Attr values / alternating key,
+    value pairs at every level - every tree TLC enumerated (the empty key included, JSON), every value kind as the
+    value of a pair; and a blank message at severity Always in every form, without and with attributes (as a logging
+    CALL that is C02's blank line: outside the domain, counted as skipped; handed over through WriteThru a record)."""
+    fmt = g.fmt
+    for i, flat in enumerate(trees):
+        if fmt != "json" and any(n["k"] == 0 for n in flat):
+            continue                      # the empty key is not a legal logfmt key
+        for form in ("call-kv", "call-attr"):
+            if form == "call-attr" and quick and i % 5:
+                continue
+            g.add(dict(t="tree", form=form), attrs=nest(flat), caller=i % 2 == 1, name=["plain"] if i % 3 == 1 else None,
+                  form=form, sev=(4, 3, 8, 9, 2)[i % 5])
+    kinds = sorted(k for k in vocab["kinds"] if k != "group" and (k != "textm" or fmt == "color"))
+    for kind in kinds:
+        for s in range(3 if quick else 12):
+            g.add(dict(t="value", kind=kind, form="call-kv"), attrs=[node(1, kind, 1)] if s % 3 else
+                  [node(1, "int", 1), node(2, kind, 2), node(3, "string", 3)], salt=s, caller=s % 2 == 1,
+                  form="call-kv")["byvar"] = True
+    for shn, msg in BLANKS:
+        for form in sorted(vocab["forms"]):
+            for an, mk in BLANK_ATTRS:
+                for nm in (None, ["plain"]):
+                    g.add(dict(t="blank", shape=shn, form=form, attrs=an, sev="always"), msg=msg, attrs=mk(), sev=8, form=form,
+                          name=nm, caller=nm is not None and an == "int")
+    # ... and at the severities around it: the blank line belongs to severity Always alone
+    for j, sev in enumerate((4, 9, 10, 11, 6, 17, 33)):
+        for shn, msg in BLANKS[:3]:
+            for form in sorted(vocab["forms"]):
+                an, mk = BLANK_ATTRS[j % 2]
+                g.add(dict(t="blank", shape=shn, form=form, attrs=an, sev="other"), msg=msg, attrs=mk(), sev=sev, form=form,
+                      name=["plain"] if j % 2 else None)
+
+
+def gen_env(g, quick):
+    """The process environment as a dimension (record field `env`): the process-wide no-colour switch of
+    github.com/hedzr/is on.  Colored: every built-in / registered severity with its FACTORY colours and every
+    SetLevelColors configuration x messages of 1..5 lines x attribute lists; JSON / logfmt: it must not matter."""
+    sevs = SEVS[:-1] + [SEV_COLOURED_UNREG]
+    if g.fmt != "color":
+        for j, (shn, msg) in enumerate(LC_SHAPES[:3]):
+            for an, mk in LC_ATTRS[:3]:
+                g.add(dict(t="lc", env="nocolor", fg="factory", bg="factory", lines=lines_class(msg), shape=shn, attrs=an), msg=msg,
+                      attrs=mk(), sev=sevs[(j * 3) % len(sevs)], env="nocolor")
+        return
+    n = 0
+    for lc in [None] + LC_COMBOS:
+        for shn, msg in LC_SHAPES:
+            for an, mk in LC_ATTRS:
+                pick = SEVS if lc is None and (not quick or an == "int") else sevs if not quick else \
+                    [sevs[(n * 7 + k * 5) % len(sevs)] for k in range(2)]
+                for sev in pick:
+                    g.add(dict(t="lc", env="nocolor", fg=lc[0] if lc else "factory", bg=lc[1] if lc else "factory",
+                               lines=lines_class(msg), shape=shn, attrs=an), msg=msg, attrs=mk(), sev=sev, lc=lc,
+                          caller=n % 3 == 0, name=["plain"] if n % 2 else None, width=1 + n % 5, minw=(16, 36, 80)[n % 3],
+                          salt=n % 4, env="nocolor")
+                n += 1
+    # layout under the switch: a slice of the presentation grid
+    for i, (name, msg, cls) in enumerate(SHAPES):
+        g.add(dict(t="grid", shape=cls, shname=name, env="nocolor"), msg=msg, attrs=[[], [node(1, "int", 1)],
+              [node(1, "error", 1), node(2, "string", 2)]][i % 3], sev=SEVS[i % len(SEVS)], width=1 + i % 5,
+              minw=(16, 36, 80)[i % 3], caller=i % 2 == 0, name=["plain"] if i % 3 == 0 else None, env="nocolor")
 
 
 LC_SHAPES = [
@@ -688,15 +781,19 @@ def gen_big(g, vocab, count, clean_of=None):
                 if fmt == "json" and rng.random() < 0.02 and "empty-key" not in bad["attrs"] and 0 not in used:
                     k = 0
                 # a reserved field name as the own key of a group member (colored: of a top-level attribute too)
-                res = (depth > 0 or (fmt == "color" and rng.random() < 0.3)) and rng.random() < 0.12
+                res = (depth > 0 or (fmt == "color" and rng.random() < 0.3) or (fmt == "json" and rng.random() < 0.2)) \
+                    and rng.random() < 0.12
                 if res:
-                    rk = rng.choice(sorted(RES_NAME))
+                    rk = rng.choice(sorted(r for r in RES_NAME if depth > 0 or r not in vocab["topexcluded"][fmt]))
                     if rk not in used:
                         k = rk
                 used.append(k)
                 kc = keyclass.setdefault(k, rng.choice(keycls + ["plain"] * 3 * len(keycls)) if 0 < k < 91 else "plain")
                 vid[0] += 1
                 is_group = (not no_groups and depth < 4 and rng.random() < 0.12 and not (no_nested and depth > 0))
+                if k in RES_NAME and is_group and not reserved_ok("member-key" if depth else "top-key", RES_NAME[k], "group"):
+                    k = used[-1] = 91 + len(used) % 5                # a listed finding: an ordinary key instead
+                    kc = keyclass.setdefault(k, "plain")
                 if k in RES_NAME and not is_group:
                     kind = rng.choice(["time"] * 3 + kinds)
                     if kind in kinds and reserved_ok("member-key" if depth else "top-key", RES_NAME[k], kind) and \
@@ -744,9 +841,11 @@ def gen_big(g, vocab, count, clean_of=None):
         if sitecls and rng.random() < 0.6:
             cfile = rng.choice(sitecls)
             site = 1 + rng.randrange(len(SITE_VARIANTS[cfile]))
+        form = rng.choice(["thru"] * 4 + ["call-attr", "call-kv"])
+        env = "nocolor" if rng.random() < 0.15 else "default"
         g.add(dict(t="big", clean=clean_of is not None), msg=msg, attrs=attrs, name=nm, caller=rng.random() < 0.5, cfile=cfile, site=site,
               sev=rng.choice(SEVS[:-1] + [SEV_COLOURED_UNREG]) if lc else rng.choice(SEVS), width=rng.randint(1, 5),
-              minw=rng.choice([16, 36, 80]), lc=lc)
+              minw=rng.choice([16, 36, 80]), lc=lc, form=form, env=env)
 
 
 # ------------------------------------------------------------------ execution and validation
@@ -864,9 +963,16 @@ def name_findings(ctx, fmt, vocab, cases, tags, bad, details, testing, seen_keys
     # 1. kind cells: which kinds fail by themselves
     bad_kinds = set()
     for i, b in by_line.items():
-        if tags[i]["t"] == "value":
+        if tags[i]["t"] == "value" and tags[i].get("form"):
+            # the kind as the value of a key/value pair of a logging call
+            found.append(("%s:value:%s:%s" % (fmt, tags[i]["kind"], tags[i]["form"]), i))
+        elif tags[i]["t"] == "value":
             bad_kinds.add(tags[i]["kind"])
             found.append(("%s:value:%s" % (fmt, tags[i]["kind"]), i))
+    # 1b. a blank message at severity Always (a record in every form but the call without arguments)
+    for i, b in by_line.items():
+        if tags[i]["t"] == "blank":
+            found.append(("%s:msg:blank-%s:%s:%s" % (fmt, tags[i]["sev"], tags[i]["form"], "+".join(sorted(b["diag"]))), i))
     # 2. class cells.  A position whose cell fails even for a plain character is broken as a
     #    whole (value kind printed raw, group syntax, ...): its cells are filed under that cause.
     broken_pos = {}
@@ -948,10 +1054,14 @@ def name_findings(ctx, fmt, vocab, cases, tags, bad, details, testing, seen_keys
             res_fail.setdefault((t["where"], t["name"], "+".join(sorted(other))), {}).setdefault(t["kind"], []).append(i)
     nkinds = len([k for k in vocab["kinds"] if k != "textm" or fmt == "color"])
     res_keys = set()
+    known_res = [k["key"] for k in ctx.known if k["key"].startswith(fmt + ":") and (k["key"].split(":") + [""])[1] in RES_PLACES]
     for (where, name, other), per in res_fail.items():
         for kind, idxs in per.items():
             for i in idxs:
-                key = "%s:%s:%s:%s%s" % (fmt, where, name, "*" if len(per) >= nkinds else kind, ":" + other if other else "")
+                # a listed finding about this place / name (whatever subset of the kinds this run generated) with the same clauses
+                hit = [k for k in known_res if ":".join(k.split(":")[4:]) == other and feats_match(fmt, k, by_line[i]["feats"], vocab)]
+                key = hit[0] if hit else \
+                    "%s:%s:%s:%s%s" % (fmt, where, name, "*" if len(per) >= nkinds else kind, ":" + other if other else "")
                 res_keys.add(key)
                 found.append((key, i))
     res_keys |= {k["key"] for k in ctx.known if (k["key"].split(":") + [""])[1] in RES_PLACES}
@@ -968,25 +1078,28 @@ def name_findings(ctx, fmt, vocab, cases, tags, bad, details, testing, seen_keys
     #     (+ :<severity classes> when only some of builtin / registered / unregistered severities fail)
     def sev_class(sev):
         return "builtin" if sev < 12 else "registered" if sev in (17, 18) else "unregistered"
+    #     cells of the process environment (the no-colour switch): <fmt>:env-nocolor:colours:...
     lc_all = {}
     for i, t in enumerate(tags):
         if t["t"] == "lc":
-            lc_all.setdefault((t["fg"], t["bg"], t["lines"]), set()).add(sev_class(cases[i]["sev"]))
+            lc_all.setdefault((t.get("env", ""), t["fg"], t["bg"], t["lines"]), set()).add(sev_class(cases[i]["sev"]))
     lc_fail = {}
     for i, b in by_line.items():
         t = tags[i]
         if t["t"] == "lc":
-            lc_fail.setdefault((t["fg"], t["bg"], t["lines"], "+".join(sorted(b["diag"]))), []).append(i)
-    for (fg, bg, lines, diag), idxs in lc_fail.items():
+            lc_fail.setdefault((t.get("env", ""), t["fg"], t["bg"], t["lines"], "+".join(sorted(b["diag"]))), []).append(i)
+    for (env, fg, bg, lines, diag), idxs in lc_fail.items():
         cls = {sev_class(cases[i]["sev"]) for i in idxs}
-        suffix = "" if cls >= lc_all[(fg, bg, lines)] else ":" + "+".join(sorted(cls))
+        suffix = "" if cls >= lc_all[(env, fg, bg, lines)] else ":" + "+".join(sorted(cls))
         for i in idxs:
-            found.append(("%s:colours:%s+%s:%s-lines:%s%s" % (fmt, fg, bg, lines, diag, suffix), i))
+            found.append(("%s:%scolours:%s+%s:%s-lines:%s%s" % (fmt, "env-%s:" % env if env else "", fg, bg, lines, diag, suffix), i))
     # 4. presentation grid
     for i, b in by_line.items():
         t = tags[i]
         if t["t"] == "grid":
-            if t["shape"] != "regular":
+            if t.get("env"):
+                found.append(("%s:env-%s:layout:%s" % (fmt, t["env"], "+".join(sorted(b["diag"]))), i))
+            elif t["shape"] != "regular":
                 found.append(("%s:msg:%s" % (fmt, t["shape"]), i))
             else:
                 found.append(("%s:layout:%s" % (fmt, "+".join(sorted(b["diag"]))), i))
@@ -1029,7 +1142,7 @@ def nontrivial_sig(c, tag):
         return tuple((n["k"], n["kind"], n["kc"], n["vc"], shape(n["sub"])) for n in ns)
     return (c["fmt"], tuple(c["msg"]), shape(c["attrs"]), c["name"]["has"], tuple(c["name"]["cls"]), c["sev"],
             c["caller"], c["cfile"] if c["caller"] else "", c["site"] if c["caller"] else 0, c["width"], c["minw"],
-            c["lc"]["set"], c["lc"]["fg"], c["lc"]["bg"])
+            c["lc"]["set"], c["lc"]["fg"], c["lc"]["bg"], c.get("form", "thru"), c.get("env", "default"))
 
 
 def run_format(ctx, fmt, replay):
@@ -1047,6 +1160,8 @@ def run_format(ctx, fmt, replay):
     gen_grid(g, quick)
     gen_reserved(g, vocab, vocab["rtrees"], quick)
     gen_colours(g, quick)
+    gen_forms(g, vocab, trees, quick)
+    gen_env(g, quick)
     known_feats = parse_known(ctx, fmt, vocab)
     gen_big(g, vocab, 120 if quick else 8000, clean_of=None)
     gen_big(g, vocab, 120 if quick else 8000, clean_of=known_feats)
@@ -1069,6 +1184,8 @@ def run_format(ctx, fmt, replay):
                        attrs=[node(1, "error", 1), node(2, "int", 2)], sev=2 if shn in "13" else SEV_COLOURED_UNREG, lc=lc)
                 gt.add(dict(t="lc", fg=lc[0], bg=lc[1], lines=lines_class(msg), shape=shn, attrs="int"), msg=msg,
                        attrs=[node(2, "int", 2)], sev=4, lc=lc)
+    gen_forms(gt, vocab, trees[:: (10 if quick else 8)], True)
+    gen_env(gt, True)
     gen_big(gt, vocab, 40 if quick else 1500, clean_of=None)
     gen_big(gt, vocab, 40 if quick else 1500, clean_of=known_feats)
 
@@ -1094,7 +1211,8 @@ def run_format(ctx, fmt, replay):
                                               any_feature_rejected=sum(1 for i in big if not gen.tags[i]["clean"] and i in rej))
         ctx.extra["skipped_outside_domain_" + nm] = skipped
         # binding of the colour configuration: the codes SetLevelColors was given must show up in colored records
-        lcset = [d for c, d in zip(gen.cases, details) if c["lc"]["set"] and c["lc"]["fg"] + c["lc"]["bg"] != "nonenone"]
+        lcset = [d for c, d in zip(gen.cases, details) if c["lc"]["set"] and c["lc"]["fg"] + c["lc"]["bg"] != "nonenone"
+                 and c.get("env", "default") == "default"]
         if fmt == "color":
             seen = sum(1 for d in lcset if d.get("lcon"))
             ctx.extra["colour_configurations_seen_in_stream_" + nm] = "%d of %d" % (seen, len(lcset))
@@ -1114,7 +1232,9 @@ def run_format(ctx, fmt, replay):
     enchistlib.run_history(ctx, fmt)
     ctx.extra["trees_enumerated_by_tlc"] = len(trees)
     ctx.extra["records_by_source"] = {k: sum(1 for t in g.tags + gt.tags if t["t"] == k)
-                                      for k in ("cls", "value", "tree", "grid", "reskey", "rtree", "lc", "big")}
+                                      for k in ("cls", "value", "tree", "grid", "reskey", "rtree", "lc", "blank", "big")}
+    ctx.extra["records_by_form"] = {f: sum(1 for c in g.cases + gt.cases if c["form"] == f) for f in sorted(vocab["forms"])}
+    ctx.extra["records_by_env"] = {e: sum(1 for c in g.cases + gt.cases if c["env"] == e) for e in sorted(vocab["envs"])}
     ctx.extra["records_by_source"]["caller-site"] = sum(1 for t in g.tags + gt.tags if t.get("pos") == "cfile")
     ctx.extra["records_with_line_site"] = sum(1 for c in g.cases + gt.cases if c["caller"] and c["site"])
     ctx.extra["reserved_key_trees_enumerated_by_tlc"] = len(vocab["rtrees"])
@@ -1123,9 +1243,19 @@ def run_format(ctx, fmt, replay):
         "value fidelity inside an abstract class is sampled (several concrete representatives per class per seed), structure is exhaustive up to the builder bound",
         "timestamps are checked for presence only (C16 owns their format); the level member is compared with Level.String()",
         "keys contain no '.'; time/level/msg/logger/caller are generated as keys of group members at every depth (ordinary "
-        "attributes in all three formats); as TOP-LEVEL keys they are outside the domain of C04/C05 (quantifier) and are generated "
-        "for C06 only, where a top-level `time` holding a time.Time may be rendered in any way (TopTimeWaived); values of kinds "
-        "whose colored syntax C06 does not fix contain no spaces",
+        "attributes in all three formats); as TOP-LEVEL keys the FOUR reserved field names of the library (constants time / level / "
+        "msg / caller) are outside the domain of C04, all five outside the domain of C05 (its quantifier gives no number); a top-level "
+        "`logger` is inside C04 (named and unnamed loggers; the names of the record's object must be pairwise distinct) and all "
+        "five are inside C06, where a top-level `time` holding a time.Time may be rendered in any way (TopTimeWaived); values of "
+        "kinds whose colored syntax C06 does not fix contain no spaces",
+        "argument form: records are handed over through Entry.WriteThru, or issued by the logging call Logit(ctx, sev, msg, args...) "
+        "with Attr arguments / alternating key, value arguments at every level (slog.Group for groups) from the worker's own call "
+        "site (time = now, checked against a window); a logging call at severity Always with a blank message is C02's blank line "
+        "whatever its arguments and is skipped (BlankPrint), handed over through WriteThru it is a record; process environment: "
+        "is.SetNoColorMode(true) is switched on right before a record with env = nocolor and off again after it",
+        "time values: UTC, whole-minute offsets and offsets with a seconds part are representatives of the kinds time / times; a "
+        "decoded text must denote the same instant; logfmt slices: the line is split at blanks outside quoted strings first, then "
+        "the text of ONE value token is read as the list",
         "caller member: records with the caller flag are attributed to real call sites of the worker, most of them behind "
         "//line directives whose file names carry a backslash (Windows paths), quote, blank, TAB, CR, LF (block form), other "
         "control characters, ESC, DEL, non-ASCII, U+200B/U+0085, U+2028, astral code points, markup, '=' - everything the Go "
@@ -1145,6 +1275,10 @@ def run_format(ctx, fmt, replay):
              "(<=%d nodes), presentation grid, caller-site cells (every file-name class the toolchain accepts in a //line "
              "directive x sites of that class x message / attribute shapes, caller flag on), reserved-name cells (5 names x every kind x depth 1..3, every tree over "
              "{k01,time}), level-colour cells ({no fg,fg} x {none,bg,attr} x line shapes x attribute lists x severities), "
+             "argument-form cells (every tree and every value kind as a logging call with key/value pairs, trees as calls with Attr "
+             "arguments, blank messages at Always and 7 other severities x 3 forms x attribute lists), process-environment cells "
+             "(no-colour switch on: factory colours of every severity and every colour configuration x line shapes x attribute "
+             "lists, a slice of the grid), "
              "seeded random big records, in production and go-test mode; "
              "non-trivial = distinct abstract records (message classes, attribute tree with kinds/classes, name, "
              "severity, caller, widths) executed and validated; PLUS histories of EncoderHist.tla: edge cover of the "
